@@ -179,6 +179,10 @@ func quickPoints(seed uint64) []uint32 {
 		for k := 0; k < 64; k++ {
 			add(exp<<23 | uint32(next())&0x7FFFFF)
 		}
+		// the ends and the middle of every binade (just below / at / just above a power of two)
+		for _, m := range []uint32{0, 1, 2, 3, 0x3FFFFF, 0x400000, 0x400001, 0x7FFFFD, 0x7FFFFE, 0x7FFFFF} {
+			add(exp<<23 | m)
+		}
 	}
 	// specials
 	for _, b := range []uint32{0, 1, 0x007FFFFF, 0x00800000, 0x3F7FFFFF, 0x3F800000, 0x3F800001, 0x40000000, 0x7149F2CA, 0x7F7FFFFF, 0x7F800000,
@@ -473,7 +477,7 @@ func TestC02(t *testing.T) {
 		}
 		return
 	}
-	ev.Rule("inputs are float32 bit patterns. quick: every table-bucket boundary (i±½)/N and i/N for N=255,511,65535 ± {0,1,2} ulp, 64 seeded mantissas in every exponent below 2, special values (±0, subnormals, curve thresholds, 1±ulp, huge, ±Inf, NaN payloads) and negatives, plus an ordered dense grid (48 points per 16-bit table step, seeded offset; 256 in thorough) checked for monotonicity between neighbours; thorough: additionally every one of the 2^32 bit patterns for the nine direct encoders/quantisers, walked in numeric order with the interval oracle evaluated at both ends of every constant run. non-trivial = distinct (encoder, bit pattern) with 0 < x < 1")
+	ev.Rule("inputs are float32 bit patterns. quick: every table-bucket boundary (i±½)/N and i/N for N=255,511,65535 ± {0,1,2} ulp, 64 seeded mantissas and the ends and middle of every binade below 2, special values (±0, subnormals, curve thresholds, 1±ulp, huge, ±Inf, NaN payloads) and negatives, plus an ordered dense grid (48 points per 16-bit table step, seeded offset; 256 in thorough) checked for monotonicity between neighbours; thorough: additionally every one of the 2^32 bit patterns for the nine direct encoders/quantisers, walked in numeric order with the interval oracle evaluated at both ends of every constant run. non-trivial = distinct (encoder, bit pattern) with 0 < x < 1")
 	ev.Set("slack_codes_rel", "max*2^-22")
 	ev.Assume("published OETFs transcribed in internal/ref; NaN inputs are only required not to panic")
 	for _, procs := range []string{"", "3", "5", "6", "7", "12"} {
